@@ -72,6 +72,21 @@ Theorem c12_nrr_only_terminates :
 Proof. exact nrr_only_terminates. Qed.
 Print Assumptions c12_nrr_only_terminates.
 
+(* ---- and for every combination of the three text rules: the loop terminates within
+        (double quotes + lone '=' + tight '#') + 1 iterations, for every linter whose violations are of
+        these rules and whose no-whitespace-comment violations point at a '#' directly followed by a
+        non-blank (what that rule reports).  The progress hypothesis is discharged, not assumed:
+          good_viol files v  :=  is_text (v_rule v) = true /\
+             (v_rule v = RNwc -> forall c0, fs_get files (v_file v) = Some c0 -> nwc_reported c0 (v_loc v))
+          text_measure c  :=  count_byte DQ c + lone_cnt NL c + tight_hash_count c ---- *)
+Theorem c12_text_rules_terminate :
+  forall lint oracle_fix rename_on_conflict free_name,
+  (forall files vs, lint files = Some vs -> Forall (good_viol files) vs) ->
+  forall files c,
+    loop lint oracle_fix rename_on_conflict free_name (S (mu_sum text_measure files)) files c <> OutOfFuel.
+Proof. exact text_rules_terminate. Qed.
+Print Assumptions c12_text_rules_terminate.
+
 (* ---- the pinned code made no progress: with the column of the first "=" of the line and the guard
         "any '='", every round on  f("a=b") = 1  inserts one more ':' inside the string literal, and the
         next round finds the same '=' again (regal fix --force never terminated) ---- *)
@@ -101,3 +116,13 @@ Proof. vm_compute. split; reflexivity. Qed.
 Example c12_ex_measures :
   lone_cnt NL (lit "f(""a=b"") = 1") = 2 /\ tight_hash_count (lit "##x # ok") = 2 /\ count_byte DQ (lit "m(""a"")") = 2.
 Proof. vm_compute. repeat split. Qed.
+
+(* the hypothesis of c12_text_rules_terminate is met by the toy linter (and so by every linter that only
+   reports use-assignment-operator violations, whatever their columns) *)
+Example c12_ex_good_viol : forall files vs, toy_lint files = Some vs -> Forall (good_viol files) vs.
+Proof.
+  intros files vs H. injection H as <-. apply Forall_forall. intros v Hin.
+  apply in_flat_map in Hin. destruct Hin as (pc & _ & Hv).
+  destruct (lone_eq (snd pc) 2); [|destruct Hv].
+  destruct Hv as [<-|[]]. split; [reflexivity|]. intros Hr. discriminate Hr.
+Qed.
